@@ -159,6 +159,18 @@ def add (t0 : T) (batch : List Change) : AddResult :=
       if t0.att.isEmpty then ⟨t', .rebuild, t.added⟩
       else ⟨t', if appendOk t0 t batch then .append else .rebuild, t.added⟩
 
+/-! ### building from storage (`treeBuilder.build`: reopen, `rebuildFromStorage(nil, nil, nil)`) -/
+
+/-- `treeBuilder.buildWithAdded` without new changes: take the stored sequence from the root snapshot on (the
+`GetAfterOrder(snapshot.OrderId)` query, `≥`), and `AddFast` it into an empty tree: the first loaded change
+becomes the root, the others are attached when their previous ids are; then `updateHeads`, `clearUnattached`. -/
+def buildFromStorage (stored : List Change) (rootId : Nat) : T :=
+  let loaded := stored.dropWhile (·.id != rootId)
+  let t := addAll {} loaded
+  match t.root with
+  | none => t
+  | some r => { t with unatt := [], added := [], lastIter := lastOf (headsOf t.att (iter r t.att)) r }
+
 /-! ### reduce (`reduceTree`, `makeRootAndRemove`) -/
 
 def findCh (att : List Change) (id : Nat) : Option Change := att.find? (·.id == id)
